@@ -236,8 +236,16 @@ func (c16) Case(c *core.Ctx) {
 	if maxKeys(content) >= 3 {
 		c.NonTrivial(cfp)
 	}
-	indent := []string{"  ", "\t", " "}[r.Intn(3)]
-	prefix := []string{"", " ", "\t"}[r.Intn(3)]
+	indent := []string{"  ", "\t", " ", ""}[r.Intn(4)]
+	prefix := []string{"", " ", "\t", ""}[r.Intn(4)]
+	if !isSeq && r.Intn(6) == 0 {
+		// pad so that the compact XML is exactly a multiple of 4096 bytes (buffer boundaries in the Writer forms)
+		content["pad"] = "p"
+		if x0, e0 := mxj.Map(content).Xml(); e0 == nil {
+			content["pad"] = strings.Repeat("p", 1+(4096-len(x0)%4096)%4096)
+			c.Count("output-multiple-of-4096")
+		}
+	}
 
 	type encT struct {
 		name string
@@ -347,6 +355,21 @@ func (c16) Case(c *core.Ctx) {
 		if e1 != nil || e2 != nil || firstDiff(ts1, ts2) != "" {
 			c.Violate("c16-indent-differs", "MapSeq.XmlIndent differs from MapSeq.Xml by more than inter-element whitespace", core.D{"compact": string(ref["MapSeq.Xml"]), "indented": string(ref["MapSeq.XmlIndent"]), "diff": firstDiff(ts1, ts2)})
 		}
+		// a MapSeq that went through JSON carries float64 sequence numbers (the encoder documents support for them):
+		// it must encode to the same bytes, every time
+		if jb, err := json.Marshal(content); err == nil {
+			var viaJSON map[string]interface{}
+			if json.Unmarshal(jb, &viaJSON) == nil {
+				for rep := 0; rep < 3; rep++ {
+					out, err := mxj.MapSeq(viaJSON).Xml()
+					c.Count("mapseq-via-json-encodings")
+					if err != nil || !bytes.Equal(out, ref["MapSeq.Xml"]) {
+						c.Violate("c16-nondeterministic:MapSeq.Xml(float64 #seq)", "a MapSeq with float64 sequence numbers (after a JSON round trip) does not encode to the same bytes", core.D{"expected": string(ref["MapSeq.Xml"]), "observed": string(out), "err": fmt.Sprint(err)})
+						break
+					}
+				}
+			}
+		}
 		// explicit root tag: compact and indented must agree on it too
 		a, ea := mxj.MapSeq(content).Xml("top")
 		b, eb := mxj.MapSeq(content).XmlIndent(prefix, indent, "top")
@@ -391,11 +414,14 @@ func (c16) Case(c *core.Ctx) {
 		lw := &logWriter{}
 		raw, hasRaw, err := w.f(lw)
 		c.Count("writer-calls-logged")
-		if err != nil || len(lw.calls) != 1 || !bytes.Equal(lw.calls[0], w.want) {
+		if err != nil || !bytes.Equal(bytes.Join(lw.calls, nil), w.want) {
 			c.Violate("c16-writer:"+w.name, w.name+" did not write exactly the bytes the byte-returning form returns", core.D{"writer": w.name, "writes": len(lw.calls), "written": joinCalls(lw.calls), "expected": string(w.want), "err": fmt.Sprint(err)})
 		}
 		if hasRaw && !bytes.Equal(raw, w.want) {
 			c.Violate("c16-writer-raw:"+w.name, w.name+" returned bytes that differ from the byte-returning form", core.D{"raw": string(raw), "expected": string(w.want)})
+		}
+		if len(lw.calls) == 1 {
+			c.Count("writer:single-write")
 		}
 		fw := &logWriter{fail: errSink}
 		_, _, err = w.f(fw)
